@@ -108,7 +108,9 @@ func StartHistory(rec *Recorder, reset Ev) *Chain {
 			continue
 		}
 		if !c.Apply(op) || !op.OK {
-			panic(fmt.Sprintf("initial operation %s failed: %s", op.Name, op.Err))
+			// (on the unchanged tree every history's set-up succeeds; a changed tree may refuse it - the history
+			// then goes on from whatever state was reached, and the formulas judge the steps that follow)
+			fmt.Fprintf(os.Stderr, "initial operation %s failed: %s\n", op.Name, op.Err)
 		}
 		c.TakeCallbacks()
 	}
